@@ -80,6 +80,9 @@ def install_externals(X):
         h = Opaque("hdulist")
         h.attrs["path"] = args[0]
         h.attrs["id"] = z3.Int(fresh_name("hdul"))
+        if not hasattr(interp.path, "fits_ids"):
+            interp.path.fits_ids = []
+        interp.path.fits_ids.append(h.attrs["id"])
         h.attrs["n"] = z3.Int(fresh_name("n_hdus"))
         interp.path.assume(h.attrs["n"] >= 1)
         interp.note_assumption("fits.open returns an HDUList with at least one HDU (the primary)")
